@@ -79,6 +79,10 @@ func (c *client) Get(ctx context.Context, key string) (kvs.Record, error) {
 }
 
 func (c *client) GetMany(ctx context.Context, keys ...string) ([]*kvs.Record, error) {
+	if len(keys) == 0 {
+		// MGET requires at least one key
+		return []*kvs.Record{}, nil
+	}
 	res, err := c.rdb.MGet(ctx, rKeys(keys)...).Result()
 	if err != nil {
 		return nil, checkErr(err)
